@@ -390,3 +390,20 @@ CHECKS["C20"] = {
     ],
     "assumptions": ["checks run as root for the foreign-owner fault (skipped and counted otherwise)"],
 }
+
+CHECKS["C19"] = {
+    "engine": "E1",
+    "technique": "deviation-bounded exhaustive enumeration of two-layer trees x content kinds x option choices, executing the real econftool binary and comparing its parsed output with the library's answer for the same tree",
+    "level_text": "every subset of {main file, two drop-ins} x {vendor, local} under a scratch $ECONFTOOL_ROOT and a single absolute file, content kinds {both, group-less only, "
+                  "sections only, multi-line values, empty value, empty section, malformed line} with at most D files deviating from the default kind, --delimiters "
+                  "{=, spaces, '= \\t'} x --comment {#, ;} x {show, syntax, cat}: show/cat output parsed back into (section, key, value lines) must equal what the "
+                  "library returns (group-less keys included, nothing else), exit status non-zero exactly when the library fails and the message names error, file and "
+                  "line, cat lists the history members in order; the binary is the ASan build",
+    "level_note": "bounded: D<=1 (quick) / D<=2 (thorough); values and keys are alphanumeric so that the tool's 'key = value' output parses back unambiguously; edit/revert commands are not part of the statement",
+    "rule": "case = (tree, content kinds, delimiters, comment, command); non-trivial = at least two files or a deviating content kind; distinct by construction",
+    "deadline": {"quick": 110, "thorough": 900},
+    "parts": [
+        {"name": "tool", "harness": "c19", "variant": "asan", "quick": ["--p0", 1], "thorough": ["--p0", 2], "floor": {"quick": 5000, "thorough": 50000}},
+    ],
+    "assumptions": ["the library driver is the in-process call of econf_readDirs / econf_readFile / econf_readDirsHistory with the translated delimiters"],
+}
